@@ -172,6 +172,29 @@ struct Level(i64);
 #[nutype(validate(predicate = |v| v.len() <= 8), derive(Debug, Clone, PartialEq, Serialize, Deserialize, AsRef))]
 struct Digest(Vec<u8>);
 
+// an inner type with its own FromStr, behind a sanitizer and a validator
+#[derive(Debug, Clone, Copy, PartialEq)]
+pub struct Span { lo: i32, hi: i32 }
+impl std::str::FromStr for Span {
+    type Err = String;
+    fn from_str(s: &str) -> Result<Self, String> {
+        let (a, b_) = s.split_once("..").ok_or("no ..")?;
+        Ok(Span { lo: a.parse::<i32>().map_err(|e| e.to_string())?, hi: b_.parse::<i32>().map_err(|e| e.to_string())? })
+    }
+}
+#[nutype(sanitize(with = |s: Span| if s.lo <= s.hi { s } else { Span { lo: s.hi, hi: s.lo } }),
+         validate(predicate = |s| (s.hi as i64 - s.lo as i64) <= 100),
+         derive(Debug, Clone, Copy, PartialEq, FromStr, TryFrom, AsRef))]
+struct Ordered(Span);
+#[nutype(sanitize(with = |s: Span| if s.lo <= s.hi { s } else { Span { lo: s.hi, hi: s.lo } }), derive(Debug, Clone, Copy, PartialEq, FromStr, AsRef))]
+struct OrderedFree(Span);
+
+// an Option inner value on the wire
+#[nutype(validate(predicate = |o| o.map_or(true, |a| a < 150)), derive(Debug, Clone, PartialEq, Serialize, Deserialize, AsRef))]
+struct MaybeAge(Option<u8>);
+#[derive(Debug, PartialEq, serde::Deserialize)]
+struct AgeHolder { a: MaybeAge, rest: Vec<MaybeAge> }
+
 fn bits_eq_vec(a: &[f64], b: &[f64]) -> bool {
     a.len() == b.len() && a.iter().zip(b).all(|(x, y)| x.to_bits() == y.to_bits())
 }
@@ -361,6 +384,51 @@ fn main() {
         let l: Vec<i64> = (0..3).map(|_| Lvl::default().into_inner()).collect();
         report("C03", "Lvl", "default_sanitized", l == vec![10, 10, 10] && Lvl::try_new(50).map(|t| t.into_inner()).ok() == Some(10), format!("{:?}", l));
         let _ = std::panic::take_hook();
+    }
+    // ------------------------------------------------------------ Ordered(Span): FromStr = the inner type's parser, then the constructor
+    {
+        use std::str::FromStr;
+        for (k, text) in ["1..5", "5..1", "101..0", "0..300", "300..0", "x", "5..", "..", "-3..3", "7..7", " 1..2", "2147483647..-2147483648"].iter().enumerate() {
+            let inner = Span::from_str(text);
+            let got = Ordered::from_str(text);
+            let ok = match (&inner, &got) {
+                (Err(_), Err(OrderedParseError::Parse(_))) => true,
+                (Ok(sp), Ok(t)) => Ordered::try_new(*sp).ok() == Some(*t),
+                (Ok(sp), Err(OrderedParseError::Validate(e))) => Ordered::try_new(*sp).err().as_ref() == Some(e),
+                _ => false,
+            };
+            report("C06", "Ordered", "from_str", ok, format!("text {} {:?}", k, got));
+            let got2 = OrderedFree::from_str(text);
+            let ok2 = match (&inner, &got2) { (Err(_), Err(_)) => true, (Ok(sp), Ok(t)) => OrderedFree::new(*sp) == *t, _ => false };
+            report("C06", "OrderedFree", "from_str", ok2, format!("text {} {:?}", k, got2));
+            if let Ok(sp) = inner {
+                report("C03", "Ordered", "try_from", Ordered::try_from(sp) == Ordered::try_new(sp), format!("text {}", k));
+            }
+        }
+    }
+    // ------------------------------------------------------------ MaybeAge(Option<u8>): every format reads what it writes
+    {
+        for (k, raw) in [None, Some(0u8), Some(42), Some(149), Some(150), Some(200)].iter().enumerate() {
+            let want = MaybeAge::try_new(*raw).ok();
+            let js = serde_json::to_string(raw).unwrap();
+            let ron_i = ron::to_string(raw).unwrap();
+            let mp = rmp_serde::to_vec(raw).unwrap();
+            let a = serde_json::from_str::<MaybeAge>(&js).ok();
+            let b1 = ron::from_str::<MaybeAge>(&format!("MaybeAge({})", ron_i)).ok();
+            let b2 = ron::from_str::<MaybeAge>(&format!("({})", ron_i)).ok();
+            let c = rmp_serde::from_slice::<MaybeAge>(&mp).ok();
+            report("C04", "MaybeAge", "deserialize", a == want && b1 == want && b2 == want && c == want, format!("input {} json {:?} ron {:?}/{:?} mp {:?}", k, a, b1, b2, c));
+            let h = ron::from_str::<AgeHolder>(&format!("(a:({}),rest:[({}),(None)])", ron_i, ron_i)).ok();
+            let hw = want.clone().map(|w| AgeHolder { a: w.clone(), rest: vec![w, MaybeAge::try_new(None).unwrap()] });
+            report("C04", "MaybeAge", "deserialize_nested_ron", h == hw, format!("input {} {:?}", k, h));
+            if let Some(t) = &want {
+                let rt = ron::to_string(t).ok().and_then(|s| ron::from_str::<MaybeAge>(&s).ok());
+                let jt = serde_json::to_string(t).ok().and_then(|s| serde_json::from_str::<MaybeAge>(&s).ok());
+                let mt = rmp_serde::to_vec(t).ok().and_then(|s| rmp_serde::from_slice::<MaybeAge>(&s).ok());
+                report("C10", "MaybeAge", "roundtrip", rt.as_ref() == Some(t) && jt.as_ref() == Some(t) && mt.as_ref() == Some(t), format!("input {} ron {:?} json {:?} mp {:?}", k, rt, jt, mt));
+                report("C10", "MaybeAge", "serialize_transparent", serde_json::to_string(t).unwrap() == js && rmp_serde::to_vec(t).unwrap() == mp, format!("input {}", k));
+            }
+        }
     }
     // ------------------------------------------------------------ Digest(Vec<u8>): a byte vector is still a sequence on the wire
     {
